@@ -116,3 +116,11 @@ Theorem C17_retain_lag_retry_witnesses :
           [50; 100; 200; 400]%nat = true.
 Proof. exact retain_lag_retry_witnesses. Qed.
 Print Assumptions C17_retain_lag_retry_witnesses.
+
+(* FINDING F9c (year-less timestamp notations, every container): the whole file is found before
+   anything is printed and nothing is dropped; the stores hold every message — for every message
+   sequence. *)
+Theorem C17_retain_yearless_refuted : forall c ms,
+  syslines (find_all c ms) = ms /\ lenN ms <= hs (find_all c ms).
+Proof. exact yearless_keeps_all. Qed.
+Print Assumptions C17_retain_yearless_refuted.
